@@ -170,8 +170,10 @@ def run(chk):
         "expansion uses the final symbol values of the build of P for conditions, loop counts and name binding; a construct whose expansion by hand is not "
         "meaning-preserving by the language's own scoping rules is left in place (macro arguments that name a parameter / a label of the macro body / `super` / `*`, "
         "macro bodies that use `-` / `+`, constants whose defining expression means something else at the use, imports `as` a namespace or of files that define macros)",
-        "theorems: C07_if, C07_loop, C07_macro (the model's meaning of each construct) and C07_compose (congruence) are single-pass statements about the model; "
-        "const substitution and imports are decided by the oracle on the implementation only",
+        "theorems: C07_if, C07_loop, C07_macro, C07_import_* (the model's meaning of each construct) and C07_compose (congruence) are single-pass statements about the model; "
+        "the whole-program theorems cover `.if` / `.loop` on closed or run-stable conditions, constants with closed definitions, and `.if` in runs with diagnostics; "
+        "whole-program macro-invocation and import expansion, constants with non-closed definitions and `.loop` expansion in runs with diagnostics are decided by the "
+        "oracle on the implementation only",
     ]
     return chk.finish(extra_trusted=[
         "spec/Expand.v + print_tokens extracted (the expander and printer are the oracle's trusted part); extract/driver_asm.ml",
